@@ -1148,6 +1148,28 @@ class Interp:
             return base.interp_getattr(attr)
         if isinstance(base, Opaque):
             return Opaque(f"{base.name}.{attr}")
+        if isinstance(base, BoundMethod):
+            # a bound method of the analysed program as a value: what Python's method objects publish
+            if attr == "__self__":
+                return base.obj
+            if attr in ("__name__", "__qualname__"):
+                return base.fi.name if attr == "__name__" else base.fi.qual
+            if attr == "__doc__":
+                return ast.get_docstring(base.fi.node)
+            if attr == "__module__":
+                return base.fi.mod.rel.replace("/", ".").removesuffix(".py").removeprefix("src.")
+            if attr == "__func__":
+                return Opaque(f"function {base.fi.qual}")
+            raise PyRaise(f"AttributeError: 'method' object has no attribute '{attr}'", node)
+        if isinstance(base, (Closure, Native)):
+            # a plain function (def / lambda / a stand-in callable): no __self__
+            nd_ = getattr(base, "node", None)
+            if attr in ("__name__", "__qualname__"):
+                return getattr(nd_, "name", None) or (base.name if isinstance(base, Native) else "<lambda>")
+            if attr == "__doc__":
+                return ast.get_docstring(nd_) if isinstance(nd_, (ast.FunctionDef, ast.AsyncFunctionDef)) else None
+            if attr in ("__self__", "__func__"):
+                raise PyRaise(f"AttributeError: 'function' object has no attribute '{attr}'", node)
         if base is None or isinstance(base, (bool, int, float)):
             if hasattr(base, attr):
                 v = getattr(base, attr)
@@ -1684,7 +1706,14 @@ class Interp:
         return None
 
     def e_Await(self, e, env):
-        return self.eval(e.value, env)
+        # models that stand in for coroutines handed to a task registry must tell them from coroutines awaited on the
+        # spot (`await self._step()`): the call being awaited directly is on the interpreter while it is evaluated
+        prev = self.__dict__.get("_awaited")
+        self._awaited = e.value
+        try:
+            return self.eval(e.value, env)
+        finally:
+            self._awaited = prev
 
     def e_Lambda(self, e, env):
         return Closure(self, e, flat_env(env))
